@@ -152,6 +152,12 @@ func (c *diskCache) findMissingCasBlobsInternal(ctx context.Context, blobs []*pb
 			}
 			return errRequestCancelled
 		case <-waitCh: // Everything in the waitgroup has finished.
+			// The last proxyCheck might have reported a miss (and cancelled
+			// the context) just before finishing: select picks at random
+			// when both cases are ready.
+			if cancelledDueToFailFast.Load() {
+				return errMissingBlob
+			}
 		}
 	}
 
